@@ -48,6 +48,9 @@ func c04Specs(tier string) []*h.SeqSpec {
 		{"index of I1", f.Items["X1"].Data, mtIdx, "X1", ""},
 		{"index of a manifest never pushed", f.Items["Xmiss"].Data, mtIdx, "Xmiss", ""},
 		{"truncated JSON", i1.Data[:len(i1.Data)/2], mtImg, "", "does not parse"},
+		{"valid image followed by a stray }", append(append([]byte{}, i1.Data...), '}'), mtImg, "", "does not parse (content after the document)"},
+		{"valid image followed by a newline and ]", append(append([]byte{}, i1.Data...), '\n', ']'), mtImg, "", "does not parse (content after the document)"},
+		{"valid index followed by a stray }", append(append([]byte{}, f.Items["X1"].Data...), '}'), mtIdx, "", "does not parse (content after the document)"},
 		{"image body sent as index type", i1.Data, mtIdx, "", "media type inconsistent with the body (mediaType field names the image type)"},
 		{"index body sent as image type", f.Items["X1"].Data, mtImg, "", "media type inconsistent with the body (mediaType field names the index type)"},
 		{"unsupported Content-Type", i1.Data, "application/json", "", "unsupported media type"},
